@@ -128,13 +128,14 @@ type Ctx struct {
 	initDone   map[*ssa.Package]bool
 	MaxPaths   int
 	MaxVisits  int
+	NoMerge    bool
 	Notes      map[string]bool
 }
 
 func NewCtx(prog *ssa.Program) *Ctx {
 	return &Ctx{Prog: prog, Intrinsics: map[string]Intrinsic{}, Contracts: map[string]Contract{},
 		globals: map[*ssa.Global]*Object{}, globalHeap: map[*Object]Value{}, initDone: map[*ssa.Package]bool{},
-		MaxPaths: 20000, MaxVisits: 600, Notes: map[string]bool{}}
+		MaxPaths: 20000, MaxVisits: 40, Notes: map[string]bool{}}
 }
 
 func (cx *Ctx) Note(s string) {
@@ -168,6 +169,8 @@ type Frame struct {
 	Parent *Frame
 	// loop bookkeeping
 	loopInfo map[*ssa.BasicBlock]*loopInfo
+	stops    []*stopRec
+	phiDone  *ssa.BasicBlock
 }
 
 func (fr *Frame) fork() *Frame {
@@ -183,7 +186,7 @@ func (fr *Frame) fork() *Frame {
 	for k, v := range fr.loopInfo {
 		le[k] = v
 	}
-	return &Frame{Fn: fr.Fn, Env: e, Visits: vs, Depth: fr.Depth, Prefix: fr.Prefix, Parent: fr.Parent, loopInfo: le}
+	return &Frame{Fn: fr.Fn, Env: e, Visits: vs, Depth: fr.Depth, Prefix: fr.Prefix, Parent: fr.Parent, loopInfo: le, stops: fr.stops}
 }
 
 // FnExec is the verification run of one function under check.
@@ -192,6 +195,7 @@ type FnExec struct {
 	Fn         *ssa.Function
 	Obls       []*Oblig
 	Paths      int
+	Merges     int
 	Returns    int
 	Aborted    string // non-empty: reason (path cap, out of subset)
 	ordinals   map[ssa.Instruction]map[string]int
@@ -333,7 +337,7 @@ func (fx *FnExec) check(fr *Frame, st *State, in ssa.Instruction, kind string, g
 
 // ---------------- memory ----------------
 
-func (fx *FnExec) readPath(v Value, p Path, t types.Type) Value {
+func (fx *FnExec) readPath(st *State, v Value, p Path, t types.Type) Value {
 	for len(p) > 0 {
 		el := p[0]
 		p = p[1:]
@@ -357,7 +361,7 @@ func (fx *FnExec) readPath(v Value, p Path, t types.Type) Value {
 			} else {
 				var r Value
 				for k := len(a.Elems) - 1; k >= 0; k-- {
-					ev := fx.readPath(a.Elems[k], p, nil)
+					ev := fx.readPath(st, a.Elems[k], p, nil)
 					if r == nil {
 						r = ev
 					} else {
@@ -366,6 +370,11 @@ func (fx *FnExec) readPath(v Value, p Path, t types.Type) Value {
 				}
 				return r
 			}
+		case ArrU:
+			if st == nil {
+				panic(Unsupported{"read of unknown-content array without state"})
+			}
+			v = fx.SymValue(st, a.ET, "elem", 1)
 		default:
 			panic(Unsupported{fmt.Sprintf("index read on %T", v)})
 		}
@@ -404,6 +413,8 @@ func (fx *FnExec) writePath(v Value, p Path, nv Value) Value {
 			}
 		}
 		return ArrS{ne}
+	case ArrU:
+		return fx.Cx.NewArrU(a.ET, a.Len)
 	}
 	panic(Unsupported{fmt.Sprintf("index write on %T", v)})
 }
@@ -419,7 +430,7 @@ func (fx *FnExec) heapGet(st *State, o *Object) Value {
 }
 
 func (fx *FnExec) Load(st *State, p PtrV, t types.Type) Value {
-	v := fx.readPath(fx.heapGet(st, p.Obj), p.Path, t)
+	v := fx.readPath(st, fx.heapGet(st, p.Obj), p.Path, t)
 	if s, ok := v.(Scalar); ok && IsBool(t) && s.T.S.K == KBV {
 		return elemToScalar(s.T, t)
 	}
@@ -435,7 +446,7 @@ func (fx *FnExec) StoreTo(st *State, p PtrV, v Value, site string) {
 
 // arrayOf returns the ArrV designated by (obj, path).
 func (fx *FnExec) arrayOf(st *State, o *Object, p Path) ArrV {
-	v := fx.readPath(fx.heapGet(st, o), p, nil)
+	v := fx.readPath(st, fx.heapGet(st, o), p, nil)
 	a, ok := v.(ArrV)
 	if !ok {
 		panic(Unsupported{fmt.Sprintf("slice over %T", v)})
@@ -444,6 +455,8 @@ func (fx *FnExec) arrayOf(st *State, o *Object, p Path) ArrV {
 }
 
 // ---------------- values from SSA ----------------
+
+func (fx *FnExec) ConstVal(c *ssa.Const) Value { return fx.constVal(c) }
 
 func (fx *FnExec) constVal(c *ssa.Const) Value {
 	t := c.Type()
@@ -625,6 +638,10 @@ func (fx *FnExec) runBlock(fr *Frame, b *ssa.BasicBlock, prev *ssa.BasicBlock, s
 	if st.Dead {
 		return
 	}
+	if n := len(fr.stops); n > 0 && fr.stops[n-1].J == b {
+		fr.stops[n-1].collect(st, fr, prev)
+		return
+	}
 	if fx.discoverLoop != nil && fr.Fn == fx.discoverHeader.Parent() {
 		if !fx.discoverLoop[b] || (b == fx.discoverHeader && prev != nil) {
 			return
@@ -637,7 +654,9 @@ func (fx *FnExec) runBlock(fr *Frame, b *ssa.BasicBlock, prev *ssa.BasicBlock, s
 		return
 	}
 	// phis
-	if prev != nil {
+	if fr.phiDone == b {
+		fr.phiDone = nil
+	} else if prev != nil {
 		idx := -1
 		for i, p := range b.Preds {
 			if p == prev {
@@ -697,6 +716,53 @@ func (fx *FnExec) runFrom(fr *Frame, b *ssa.BasicBlock, start int, st *State, k 
 			fx.Paths++
 			if fx.Paths > fx.Cx.MaxPaths {
 				panic(abortExec{"path cap exceeded"})
+			}
+			J := ipdoms(fr.Fn)[b]
+			if J != nil && !fx.Cx.NoMerge && !fx.hasLoopSpec(fr.Fn, J) {
+				base := len(st.PC)
+				var results []mergeRes
+				rec := &stopRec{J: J}
+				rec.collect = func(s *State, f *Frame, pv *ssa.BasicBlock) {
+					results = append(results, mergeRes{s, f, pv})
+				}
+				conds := []*Term{c, Not(c)}
+				for i, succ := range b.Succs {
+					si := st.Clone()
+					si.Assume(conds[i])
+					if si.Dead {
+						continue
+					}
+					fi := fr.fork()
+					fi.stops = append(append([]*stopRec(nil), fr.stops...), rec)
+					fx.runBlock(fi, succ, b, si, k)
+				}
+				if len(results) == 0 {
+					return
+				}
+				if len(results) > 1 && len(results) <= 16 {
+					if ms, mf, ok := fx.mergeResults(fr, base, results, J); ok {
+						fx.Merges++
+						if n := len(mf.stops); n > 0 && mf.stops[n-1].J == J {
+							// the join point is also the join point of an enclosing If: hand over
+							// (phis already evaluated into mf.Env; mark so that runBlock does not redo them)
+							mf.phiDone = J
+							mf.stops[n-1].collect(ms, mf, results[0].prev)
+							return
+						}
+						mf.Visits[J]++
+						if mf.Visits[J] > fx.Cx.MaxVisits {
+							fx.Oblige(ms, fmt.Sprintf("%s%s#unwind[b%d]", fr.Prefix, FuncName(fr.Fn), J.Index), "unwind", False, "", "loop not fully unrolled within limit")
+							return
+						}
+						fx.runFrom(mf, J, 0, ms, k)
+						return
+					}
+				}
+				for _, r := range results {
+					r.fr.stops = fr.stops
+					fx.runBlock(r.fr, J, r.prev, r.st, k)
+				}
+				return
 			}
 			st1 := st.Clone()
 			st1.Assume(c)
@@ -786,7 +852,7 @@ func (fx *FnExec) step(fr *Frame, st *State, in ssa.Instruction) {
 			fr.Env[x] = elemToScalar(a.C.Elem(idx), x.Type())
 		case ArrS:
 			fx.check(fr, st, in, "safety.index", ULt(idx, BV64(uint64(len(a.Elems)))), "array index out of range")
-			fr.Env[x] = fx.readPath(a, Path{{Field: -1, Index: idx}}, x.Type())
+			fr.Env[x] = fx.readPath(st, a, Path{{Field: -1, Index: idx}}, x.Type())
 		case StrV:
 			fx.check(fr, st, in, "safety.index", ULt(idx, a.Len), "string index out of range")
 			fr.Env[x] = Scalar{a.C.Elem(Add(a.Off, idx))}
@@ -894,7 +960,10 @@ func (fx *FnExec) newSlice(st *State, et types.Type, ln, cp *Term, name string) 
 			st.Heap[o] = ArrS{es}
 			return SliceV{Nil: False, Obj: o, Off: BV64(0), Len: ln, Cap: cp}
 		}
-		panic(Unsupported{"make of slice with composite elements and symbolic length: " + et.String()})
+		o := fx.Cx.NewObj(name, types.NewSlice(et), ProvFresh)
+		st.Heap[o] = fx.Cx.NewArrU(et, cp)
+		fx.Cx.Note("make of a slice of composite elements with symbolic length: content modelled as unknown instead of zero")
+		return SliceV{Nil: False, Obj: o, Off: BV64(0), Len: ln, Cap: cp}
 	}
 	o := fx.Cx.NewObj(name, types.NewSlice(et), ProvFresh)
 	var c Content = CZero{w}
@@ -1430,6 +1499,8 @@ func (fx *FnExec) builtin(fr *Frame, st *State, c *ssa.Call, name string, args [
 			return Scalar{a.Len}
 		case ArrS:
 			return Scalar{BV64(uint64(len(a.Elems)))}
+		case ArrU:
+			return Scalar{a.Len}
 		case MapV:
 			panic(Unsupported{"len(map)"})
 		}
@@ -1525,16 +1596,26 @@ func (fx *FnExec) builtin(fr *Frame, st *State, c *ssa.Call, name string, args [
 }
 
 func (fx *FnExec) appendComposite(st *State, s, t SliceV, et types.Type) Value {
-	if !s.Len.IsConst() || !t.Len.IsConst() || !s.Off.IsConst() || !t.Off.IsConst() {
-		panic(Unsupported{"append on slice of composite elements with symbolic length"})
+	isU := func(x SliceV) bool {
+		if x.Obj == nil {
+			return false
+		}
+		_, u := fx.readPath(st, fx.heapGet(st, x.Obj), x.Path, nil).(ArrU)
+		return u
+	}
+	if !s.Len.IsConst() || !t.Len.IsConst() || !s.Off.IsConst() || !t.Off.IsConst() || isU(s) || isU(t) || s.Len.Val+t.Len.Val > 64 {
+		nl := Add(s.Len, t.Len)
+		o := fx.Cx.NewObj("append", types.NewSlice(et), ProvFresh)
+		st.Heap[o] = fx.Cx.NewArrU(et, nl)
+		return SliceV{Nil: False, Obj: o, Off: BV64(0), Len: nl, Cap: nl}
 	}
 	var elems []Value
 	if s.Obj != nil {
-		a := fx.readPath(fx.heapGet(st, s.Obj), s.Path, nil).(ArrS)
+		a := fx.readPath(st, fx.heapGet(st, s.Obj), s.Path, nil).(ArrS)
 		elems = append(elems, a.Elems[s.Off.Val:s.Off.Val+s.Len.Val]...)
 	}
 	if t.Obj != nil {
-		a := fx.readPath(fx.heapGet(st, t.Obj), t.Path, nil).(ArrS)
+		a := fx.readPath(st, fx.heapGet(st, t.Obj), t.Path, nil).(ArrS)
 		elems = append(elems, a.Elems[t.Off.Val:t.Off.Val+t.Len.Val]...)
 	}
 	o := fx.Cx.NewObj("append", types.NewSlice(et), ProvFresh)
@@ -1658,6 +1739,18 @@ func (fx *FnExec) loopHook(fr *Frame, b *ssa.BasicBlock, prev *ssa.BasicBlock, s
 		return false
 	}
 	return fx.cutLoop(fr, b, prev, st, k, ord, spec)
+}
+
+func (fx *FnExec) hasLoopSpec(fn *ssa.Function, b *ssa.BasicBlock) bool {
+	if fx.Cx.Loops == nil {
+		return false
+	}
+	ord, isH := LoopOrdinal(fn, b)
+	if !isH {
+		return false
+	}
+	sp := fx.Cx.Loops(fn, ord)
+	return sp != nil && sp.Invariant != nil
 }
 
 // LoopOrdinal: rank of block b among loop headers of fn (in block order); a header is a block with a back edge
